@@ -123,6 +123,34 @@ fn eval(name: &str, a: &[Value]) -> Value {
                 Err(e) => json!({"Err": format!("{:#}", e)}),
             }
         }
+        // layers: [cfg0, cfg1, ...]; op "defaults": ((c0.wd(c1)).wd(c2))..; "defaults_right": c0.wd(c1.wd(c2..)); "overrides": c0.wo(c1)
+        "tcc_merge" => {
+            let op = a[0].as_str().unwrap();
+            let layers: Vec<_> = a[1].as_array().unwrap().iter().map(crate::cfg::tcc_from).collect();
+            let r = match op {
+                "defaults" => layers[1..].iter().fold(layers[0].clone(), |acc, l| acc.with_defaults_from(l)),
+                "defaults_right" => {
+                    let mut acc = layers[layers.len() - 1].clone();
+                    for l in layers[..layers.len() - 1].iter().rev() {
+                        acc = l.with_defaults_from(&acc);
+                    }
+                    acc
+                }
+                "overrides" => layers[1..].iter().fold(layers[0].clone(), |acc, l| acc.with_overrides_from(l)),
+                _ => layers[0].clone(),
+            };
+            crate::cfg::tcc_to(&r)
+        }
+        "doc_merge" => {
+            let op = a[0].as_str().unwrap();
+            let layers: Vec<_> = a[1].as_array().unwrap().iter().map(crate::cfg::doc_from).collect();
+            let r = match op {
+                "defaults" => layers[1..].iter().fold(layers[0].clone(), |acc, l| acc.with_defaults_from(l)),
+                "overrides" => layers[1..].iter().fold(layers[0].clone(), |acc, l| acc.with_overrides_from(l)),
+                _ => layers[0].clone(),
+            };
+            crate::cfg::doc_to(&r)
+        }
         "max_backtick_size" => {
             json!(scrut::generators::markdown::verif_hooks::max_backtick_size(&str_arg(&a[0])))
         }
